@@ -184,8 +184,14 @@ def eqkey(o):
         return "M(%s,%s,%s,%r,%r,%r,%r,%r,%r)" % (eqkey(o._offset), eqkey(o._base), eqkey(o._index), o._scale, o._segment_ext,
                                                   o._mask, o._pre_indexed, o._post_indexed, o._indexed_val)
     if n == "IdentifierOperand":
-        return "Id(%r,%r,%r)" % (getattr(o, "_name", None), getattr(o, "_offset", None), getattr(o, "_relocation", None))
+        # the class has no __eq__: `==` is identity (two stores through `foo(%rip)` are NOT equal operands)
+        return "Id@%d" % id(o)
     return repr(o)
+
+
+def symkey(o):
+    """what the repaired `is_memload` compares of a symbolic displacement: name, constant offset, relocation"""
+    return "Id(%r,%r,%r)" % (getattr(o, "_name", None), getattr(o, "_offset", None), getattr(o, "_relocation", None))
 
 
 def reg_y(r):
@@ -206,6 +212,8 @@ def op_y(o):
         offv = None
         if _cls(off) == "ImmediateOperand" and off.value is not None and isinstance(off.value, int):
             offv = off.value
+        elif _cls(off) == "IdentifierOperand":
+            offv = ["sym", symkey(off)]          # DG.Mem.sym: comparable only with the very same symbol
         elif off is not None:
             offv = "id"
         post = o.post_indexed
@@ -327,24 +335,43 @@ def gen_memdep_x86(rng):
     fams = rng.sample(X86_GPR[:8], 6)
     base, idx, other, c1, val, c2 = ("%" + f[0] for f in fams)
     shape = rng.choice(["b", "bd", "bisd", "bis"])
+    # symbolic displacements (`foo(%rax)`, `foo+8(%rax,%rbx,4)`, `foo(%rip)`): a symbol is an unknown constant -- the
+    # locations are provably the same only for the very same symbol text on both sides (and equal tracked registers)
+    ssym = lsym = None
+    rip = False
+    if rng.random() < 0.22:
+        pair = rng.choice(["same", "same", "diff", "store_only", "load_only"])
+        a, b_ = rng.sample(["foo", "bar", "foo+8", ".LC0", "tab-16"], 2)
+        ssym = a if pair != "load_only" else None
+        lsym = {"same": a, "diff": b_, "store_only": None, "load_only": a}[pair]
+        shape = rng.choice(["bd", "bisd"])
+        rip = pair in ("same", "diff") and rng.random() < 0.35
+        if rip:
+            shape, base = "bd", "%rip"
     has_idx = shape in ("bis", "bisd")
     d0 = rng.choice([0, 8, 16, -8, 32, 0x40])
     sc = rng.choice([1, 2, 4, 8])
 
     def addr(b, i, s_, disp):
+        if isinstance(disp, str):
+            return "%s(%s)" % (disp, b) if not has_idx else "%s(%s,%s,%d)" % (disp, b, i, s_)
         if not has_idx:
             return "(%s)" % b if (disp == 0 and shape == "b") else "%d(%s)" % (disp, b)
         return "(%s,%s,%d)" % (b, i, s_) if (disp == 0 and shape == "bis") else "%d(%s,%s,%d)" % (disp, b, i, s_)
 
     # the store: a plain store, or a read-modify-write whose hidden flag destinations precede the memory destination
-    lines = [rng.choice(["movq %s, %s" % (val, addr(base, idx, sc, d0)), "vmovsd %%xmm1, %s" % addr(base, idx, sc, d0),
-                         "addq %s, %s" % (val, addr(base, idx, sc, d0)), "subq $1, %s" % addr(base, idx, sc, d0)])]
+    sd = ssym if ssym is not None else d0       # the store's displacement as written
+    lines = [rng.choice(["movq %s, %s" % (val, addr(base, idx, sc, sd)), "vmovsd %%xmm1, %s" % addr(base, idx, sc, sd),
+                         "addq %s, %s" % (val, addr(base, idx, sc, sd)), "subq $1, %s" % addr(base, idx, sc, sd)])]
     sym = {}                                    # reg -> (origin, delta) | None
-    store_addr = _sym_addr(sym, base, idx if has_idx else None, sc, d0)
+    store_addr = _sym_addr(sym, base, idx if has_idx else None, sc, 0 if ssym is not None else d0)
     holders_b, holders_i = [base], [idx]        # registers currently derived from base / index
     second = False
-    for _ in range(rng.choice([0, 0, 1, 1, 2, 3, 4])):
+    symbolic = ssym is not None or lsym is not None
+    for _ in range(rng.choice([0, 0, 1, 1, 2, 3, 4] if not symbolic else [0, 0, 0, 1, 1, 2])):
         r = rng.random()
+        if rip:
+            r = 0.90 if r < 0.94 else r          # nothing computes with %rip: unrelated instructions or a second store
         pool = holders_b + (holders_i if has_idx else [])
         reg = rng.choice(pool)
         if r < 0.30:
@@ -363,8 +390,8 @@ def gen_memdep_x86(rng):
             sym[reg] = None if v is None else (v[0], v[1] + (1 if lines[-1].startswith("inc") else -1))
         elif r < 0.80:
             c = c1 if reg in holders_b else c2
-            if c == reg:
-                continue
+            if c == reg or (c in sym and sym[c] is None):
+                continue                         # (a fresh copy INTO a clobbered register stays "unknown" in the tracker: see notes/C06.md)
             lines.append("movq %s, %s" % (reg, c))         # register copy; both stay usable afterwards
             sym[c] = sym.get(reg, (reg, 0))
             (holders_b if reg in holders_b else holders_i).append(c) if c not in pool else None
@@ -374,16 +401,26 @@ def gen_memdep_x86(rng):
         elif r < 0.94:
             lines.append("addq %s, %s" % (other, other))   # unrelated
         else:
-            lines.append("movq %s, %s" % (val, addr(base, idx, sc, d0)))   # a second store to the very same operand
+            lines.append("movq %s, %s" % (val, addr(base, idx, sc, sd)))   # a second store to the very same operand
             second = True
     lb = rng.choice(holders_b)
     li = rng.choice(holders_i) if has_idx else None
-    if rng.random() < 0.12:
+    if rng.random() < 0.12 and not rip:
         lb = other                                                           # unrelated base register
     lsc = sc if (not has_idx or rng.random() < 0.85) else rng.choice([x for x in (1, 2, 4, 8) if x != sc])
     # choose the displacement so that the addresses coincide (if they can), or not
     want_same = rng.random() < 0.6
     probe = _sym_addr(sym, lb, li, lsc, 0)
+    if symbolic:
+        # symbol against symbol: same location iff the same symbol and the register parts agree (nothing to adjust);
+        # symbol against number (or nothing): never provably the same
+        dl = lsym if lsym is not None else rng.choice([0, 8, 16])
+        la = addr(lb, li, lsc, dl)
+        same = ssym is not None and ssym == lsym and probe is not None and probe == store_addr
+        lines.append(rng.choice(["movq %s, %%r11" % la, "vmovsd %s, %%xmm2" % la, "addq %s, %%r11" % la]))
+        lines.append("addq %r11, %r12")
+        return lines, {"same_location": same, "known": probe is not None, "second_store": second,
+                       "symbolic": {"store": ssym, "load": lsym}}
     if probe is not None and store_addr is not None and probe[0] == store_addr[0]:
         dl = store_addr[1] - probe[1]
         if not want_same:
@@ -408,25 +445,62 @@ def gen_memdep_a64(rng):
     base, idx, other, c1, val, c2 = ("x%d" % r for r in regs)
     shape = rng.choice(["b", "bd", "bi", "bis"])
     has_idx = shape in ("bi", "bis")
+    # symbolic displacements (`[x2, #:lo12:foo]`): see gen_memdep_x86
+    ssym = lsym = None
+    wb = None                                   # write-back of the store itself: "post" (`[x2], #8`) / "pre" (`[x2, #8]!`)
+    mode = rng.random()
+    if mode < 0.18:
+        pair = rng.choice(["same", "same", "diff", "store_only", "load_only"])
+        a, b_ = rng.sample([":lo12:foo", ":lo12:bar", ":lo12:foo+8", ":lo12:.LC0"], 2)
+        ssym = a if pair != "load_only" else None
+        lsym = {"same": a, "diff": b_, "store_only": None, "load_only": a}[pair]
+        shape = "bd"
+    elif mode < 0.40:
+        wb = rng.choice(["post", "post", "pre"])
+        shape = "bd"
+    symbolic = ssym is not None or lsym is not None
+    has_idx = shape in ("bi", "bis")
     d0 = rng.choice([0, 8, 16, 32, -16]) if not has_idx else 0
     sh = rng.choice([2, 3]) if shape == "bis" else 0
 
     def addr(b, i, shift, disp):
+        if isinstance(disp, str):
+            return "[%s, #%s]" % (b, disp)
         if not has_idx:
             return "[%s]" % b if (disp == 0 and shape == "b") else "[%s, #%d]" % (b, disp)
         return "[%s, %s]" % (b, i) if shift == 0 else "[%s, %s, lsl #%d]" % (b, i, shift)
 
-    lines = [rng.choice(["str %s, %s" % (val, addr(base, idx, sh, d0)), "str d1, %s" % addr(base, idx, sh, d0)])]
+    sd = ssym if ssym is not None else d0
     sym = {}
-    store_addr = _sym_addr(sym, base, idx if has_idx else None, 2 ** sh, d0)
+    if wb is None:
+        lines = [rng.choice(["str %s, %s" % (val, addr(base, idx, sh, sd)), "str d1, %s" % addr(base, idx, sh, sd)])]
+        store_addr = _sym_addr(sym, base, idx if has_idx else None, 2 ** sh, 0 if ssym is not None else d0)
+    else:
+        # the architecture: a post-indexed access uses the OLD base, a pre-indexed one the updated base; afterwards the
+        # base register holds old + k in both cases
+        k = rng.choice([8, 16, 32, -16])
+        sreg = rng.choice([val, "d1"])
+        lines = ["str %s, [%s], #%d" % (sreg, base, k) if wb == "post" else "str %s, [%s, #%d]!" % (sreg, base, k)]
+        store_addr = _sym_addr(sym, base, None, 1, 0 if wb == "post" else k)
+        sym[base] = (base, k)
     holders_b, holders_i = [base], [idx]
     second = False
+    base_rewritten = False                      # write-back store only: its base register is written again before the load
     reg_post = set()                            # registers post-indexed by a register after the store, and their copies
-    for _ in range(rng.choice([0, 0, 1, 1, 2, 3, 4])):
+    nops = rng.choice([0, 0, 1, 1, 2, 3, 4] if not symbolic else [0, 0, 0, 1, 1, 2])
+    if wb is not None:
+        nops = max(nops, 1)
+    for step in range(nops):
         r = rng.random()
+        if wb is not None and step == 0 and r < 0.85:
+            r = rng.choice([0.58, 0.70, 0.75])   # first a copy of the written-back base (`mov` / `add xC, xB, #k`)
+        if wb is not None and r >= 0.90:
+            r = 0.70                             # no second store with write-back (it would move the base once more)
         pool = holders_b + (holders_i if has_idx else [])
         reg = rng.choice(pool)
         v = sym.get(reg, (reg, 0))
+        if wb is not None and reg == base and (r < 0.56 or 0.80 <= r < 0.90):
+            base_rewritten = True
         if r < 0.25:
             k = rng.choice([8, 16, 64])
             lines.append("add %s, %s, #%d" % (reg, reg, k))
@@ -448,8 +522,8 @@ def gen_memdep_a64(rng):
         elif r < 0.62:
             k = rng.choice([8, 16])
             c = c1 if reg in holders_b else c2
-            if c == reg:
-                continue
+            if c == reg or (c in sym and sym[c] is None):
+                continue                         # (a fresh copy INTO a clobbered register stays "unknown" in the tracker: see notes/C06.md)
             lines.append("add %s, %s, #%d" % (c, reg, k))         # copy with increment
             sym[c] = None if v is None else (v[0], v[1] + k)
             (reg_post.add if reg in reg_post else reg_post.discard)(c)    # a copy inherits where its value comes from
@@ -457,8 +531,8 @@ def gen_memdep_a64(rng):
                 (holders_b if reg in holders_b else holders_i).append(c)
         elif r < 0.80:
             c = c1 if reg in holders_b else c2
-            if c == reg:
-                continue
+            if c == reg or (c in sym and sym[c] is None):
+                continue                         # (a fresh copy INTO a clobbered register stays "unknown" in the tracker: see notes/C06.md)
             lines.append("mov %s, %s" % (c, reg))
             sym[c] = v
             (reg_post.add if reg in reg_post else reg_post.discard)(c)    # a copy inherits where its value comes from
@@ -468,14 +542,27 @@ def gen_memdep_a64(rng):
             lines.append("mul %s, %s, %s" % (reg, reg, other))    # unknown change
             sym[reg] = None
         else:
-            lines.append("str %s, %s" % (val, addr(base, idx, sh, d0)))
+            lines.append("str %s, %s" % (val, addr(base, idx, sh, sd)))
             second = True
     lb = rng.choice(holders_b)
+    if wb is not None and len(holders_b) > 1 and rng.random() < 0.8:
+        lb = rng.choice(holders_b[1:])           # through a copy: no register dependency hides the memory dependency
     li = rng.choice(holders_i) if has_idx else None
     if rng.random() < 0.12:
         lb = other
     lsh = sh if (shape != "bis" or rng.random() < 0.85) else (5 - sh)
     want_same = rng.random() < 0.6
+    if symbolic:
+        dl = lsym if lsym is not None else rng.choice([0, 8, 16])
+        la = addr(lb, None, 0, dl)
+        probe = _sym_addr(sym, lb, None, 1, 0)
+        same = ssym is not None and ssym == lsym and probe is not None and probe == store_addr
+        lines.append(rng.choice(["ldr x9, %s" % la, "ldr d2, %s" % la]))
+        lines.append("add x10, x9, x9")
+        through = [x for x in (lb,) if x in reg_post]
+        return lines, {"same_location": same, "known": probe is not None, "second_store": second,
+                       "register_post_index": sorted(reg_post), "load_through_unknown": bool(through),
+                       "symbolic": {"store": ssym, "load": lsym}}
     if has_idx:
         dl = 0
         la = addr(lb, li, lsh, 0)
@@ -495,5 +582,11 @@ def gen_memdep_a64(rng):
     # does the load form its address with a register whose value stems (also through copies) from one that was
     # post-indexed by a register?  Then the address is unknown (`sym` says so as well) and no dependency is demanded
     through = [x for x in (lb, li) if x is not None and x in reg_post]
-    return lines, {"same_location": same, "known": la_sym is not None, "second_store": second,
-                   "register_post_index": sorted(reg_post), "load_through_unknown": bool(through)}
+    meta = {"same_location": same, "known": la_sym is not None, "second_store": second,
+            "register_post_index": sorted(reg_post), "load_through_unknown": bool(through)}
+    if wb is not None:
+        # the store writes its base register: a load that reads this register itself (not a copy) depends on the store
+        # through the register anyway, and a later write to it ends the scan of the implementation (both: not judged)
+        meta.update(store_writeback=wb, wb_base_rewritten=base_rewritten,
+                    register_edge_to_load=(lb == base and not base_rewritten))
+    return lines, meta
